@@ -331,33 +331,95 @@ def check_t3(chk, m, K):
                         live.append(q)
                 helper_moves[name] = bool(live) and all(any(takes_off_timerq(e) for e in q.events) for q in live)
         return helper_moves[name]
+    # decisions of handle_timerq read from kernel state the documented structure does not have (a cached due time, ...): whether
+    # that state is kept right is not something this rule can see
+    known = {"current", "state", "now", "runq", "atomic_runq", "timerq", "taint_flags"}
     for s, p in segs:
-        # the head leaves the timer queue on this segment: through the iterator, or by extracting / removing it
-        moved = any(takes_off_timerq(e) or (e.kind == "call" and isinstance(e.callee, str) and helper_takes_off_timerq(e.callee))
-                    for e in p.events)
-        test = None
-        for c, taken, inst in p.conds:
+        opaque = [x for c, t, i in p.conds for x in paths.subexprs(c)
+                  if x[0] == "ld" and x[1] is not None and K.member_of(x[1]) and K.member_of(x[1])[0] not in known]
+        if opaque:
+            chk.unknown("T3.expiry-predicate", "handle_timerq", "the expiry decision reads kernel.%s, state this rule does not interpret "
+                        "(a cache of the head's due time?): whether it is kept up to date is not decided" % K.member_of(opaque[0][1])[0],
+                        p.ret_inst.loc if p.ret_inst is not None else fn.loc)
+            fib.check_iterator_validity(chk, m, K)
+            return
+
+    def decisions(p):
+        """[(event position, True/False/'other:..')] of the expiry tests on a segment, [(position)] of the moves"""
+        tests = []
+        for (c, taken, inst), pos in zip(p.conds, p.cond_pos):
             cc = strip_casts(c)
             r = le0(cc, taken)
             if r is not None:
                 x = strip_casts(r[0])
                 if x[0] == "call" and x[1] == "cyclecmp32" and time_kind(x[2][0], K, fn) == "time" and x[2][1][0] == "ld" and x[2][1][1] == K.kptr("now"):
-                    test = r[1]
+                    tests.append((pos, r[1]))
                 # the same difference written out (cyclecmp32 inlined from a header, or open-coded)
                 elif x[0] == "b" and x[1] == "sub" and time_kind(x[3], K, fn) == "time" and strip_casts(x[4])[0] == "ld" and strip_casts(x[4])[1] == K.kptr("now"):
-                    test = r[1]
+                    tests.append((pos, r[1]))
             elif cc[0] == "icmp" and time_kind(cc[2], K, fn) == "diff":
-                test = "other:" + fmt(cc)[:50]
-        if test is None and not moved:
+                tests.append((pos, "other:" + fmt(cc)[:50]))
+        moves = [k for k, e in enumerate(p.events)
+                 if takes_off_timerq(e) or (e.kind == "call" and isinstance(e.callee, str) and helper_takes_off_timerq(e.callee))]
+        return tests, moves
+
+    def arrives_due(start, depth=0):
+        """every way of reaching block `start` ends with the test having answered 'due' for the node now at the head and nothing
+        moved since (the test for the next node is made at the bottom of the previous round, or before the loop)"""
+        if start == fn.entry.name or depth > 3:
+            return False
+        arr = [(s_, q) for s_, q in segs if q.end == "cut:" + start]
+        if not arr:
+            return False
+        for s_, q in arr:
+            t_, m_ = decisions(q)
+            if t_:
+                pos, val = t_[-1]
+                if val is not True or any(k >= pos for k in m_):
+                    return False
+            elif m_ or not arrives_due(s_, depth + 1):
+                return False
+        return True
+    for s, p in segs:
+        tests, moves = decisions(p)
+        if not tests and not moves:
             continue
         n += 1
         sid = "handle_timerq %s..%s" % (s.lstrip("%"), p.end)
-        if isinstance(test, str):
-            chk.ob("T3.expiry-predicate", sid, False, "expiry test %s is not (head.duetime - now) <= 0" % test, p.ret_inst.loc, fn.name)
-        else:
-            chk.ob("T3.expiry-predicate", sid, (test is True) == moved,
-                   "the head is moved to the run queue exactly when (head.duetime - now) <= 0 (test %s, moved %s)" % (test, moved),
-                   p.ret_inst.loc, fn.name)
+        bad_t = [v for pos, v in tests if isinstance(v, str)]
+        if bad_t:
+            chk.ob("T3.expiry-predicate", sid, False, "expiry test %s is not (head.duetime - now) <= 0" % bad_t[0], p.ret_inst.loc, fn.name)
+            continue
+        ok, why = True, []
+        for k in moves:
+            before = [v for pos, v in tests if pos <= k]
+            if before:
+                if before[-1] is not True:
+                    ok = False
+                    why.append("a fibre is moved after its due time tested 'not yet due'")
+            elif not arrives_due(s):
+                ok = False
+                why.append("a fibre is moved although no test on this path (or on every path arriving here) found it due")
+        # a 'not due' answer ends the walk: nothing is moved after it; a 'due' answer is followed by a move (here, or - when the
+        # test is made ahead of the next round - on every continuation)
+        for pos, v in tests:
+            later = [k for k in moves if k >= pos]
+            if v is False and later:
+                ok = False
+                why.append("a fibre is moved after the test answered 'not yet due'")
+            if v is True and not later:
+                if not p.end.startswith("cut:"):
+                    ok = False
+                    why.append("the test answered 'due' but the fibre is not moved before returning")
+                else:
+                    nxt = p.end[4:]
+                    cont = [q for s_, q in segs if s_ == nxt]
+                    if not cont or not all(decisions(q)[1] and not [t for t in decisions(q)[0] if t[0] <= decisions(q)[1][0]] for q in cont):
+                        ok = False
+                        why.append("the test answered 'due' but a continuation does not move the fibre (or tests again)")
+        chk.ob("T3.expiry-predicate", sid, ok,
+               "the head is moved to the run queue exactly when (head.duetime - now) <= 0 (tests %s, %d move(s)%s)"
+               % ([v for pos, v in tests], len(moves), "" if ok else ": " + "; ".join(why)), p.ret_inst.loc, fn.name)
     chk.expect("T3", "expiry decisions in handle_timerq", n, 2)
     fib.check_iterator_validity(chk, m, K)
 
